@@ -136,7 +136,14 @@ func (s *Service) ScheduleJob(ctx context.Context,
 			// It is possible that the job is already active, so check that first before proceeding.
 			if job.active.Load() {
 				verifPoint("timer-claimed", name)
-				s.log.Trace().Str("job", name).Time("scheduled", runtime).Msg("Already running; job not running")
+				// The job has been claimed by RunJob(), whose run signal is waiting for this goroutine, which is its only
+				// reader.  Act on that signal here, otherwise the job would never run.
+				s.log.Trace().Str("job", name).Time("scheduled", runtime).Msg("Already claimed by run request; job running")
+				monitorJobStartedOnSignal(class)
+				jobFunc(ctx)
+				s.log.Trace().Str("job", name).Time("scheduled", runtime).Msg("Job complete")
+				finaliseJob(job)
+				job.active.Store(false)
 				break
 			}
 			verifPoint("timer-unclaimed", name)
